@@ -29,13 +29,17 @@ KeySet == {KEYS[i] : i \in DOMAIN KEYS}
 Empty == [k \in KeySet |-> <<>>]
 
 \* ---------------------------------------------------------------- tokens
-RECURSIVE Split(_)
-Split(s) ==                                        \* str.split(): maximal runs of non-white-space
-    IF s = <<>> THEN <<>>
-    ELSE IF Head(s) \in WS THEN Split(Tail(s))
-    ELSE LET E == {k \in 1..Len(s) : s[k] \in WS}
-             e == IF E = {} THEN Len(s) + 1 ELSE CHOOSE k \in E : \A j \in E : k <= j
-         IN <<SubSeq(s, 1, e - 1)>> \o Split(SubSeq(s, e, Len(s)))
+\* str.split(): the maximal runs of non-white-space characters, in order (written without
+\* recursion: outputs are hundreds of characters long)
+Split(s) ==
+    LET n == Len(s)
+        IsTok(i) == s[i] \notin WS
+        starts == {i \in 1..n : IsTok(i) /\ (i = 1 \/ ~IsTok(i - 1))}
+        ends == {i \in 1..n : IsTok(i) /\ (i = n \/ ~IsTok(i + 1))}
+        Kth(S, k) == CHOOSE i \in S : Cardinality({j \in S : j < i}) = k - 1
+    IN [k \in 1..Cardinality(starts) |-> SubSeq(s, Kth(starts, k), Kth(ends, k))]
+\* a package with its two outputs tokenised once
+Tok(pkgs) == [i \in DOMAIN pkgs |-> [cf |-> Split(pkgs[i].cf), lb |-> Split(pkgs[i].lb), fail |-> pkgs[i].fail]]
 Starts(tok, c) == Len(tok) >= 2 /\ tok[1] = cDash /\ tok[2] = c       \* x.startswith("-I")
 Drop2(tok) == SubSeq(tok, 3, Len(tok))                                  \* x[2:]
 Pfx(tok) == IF Starts(tok, cI) THEN "I" ELSE IF Starts(tok, cL) THEN "L" ELSE IF Starts(tok, cl) THEN "l"
@@ -65,8 +69,9 @@ Merge(a, b) == [k \in KeySet |-> a[k] \o b[k]]                          \* per-k
 RECURSIVE MergeAll(_)
 MergeAll(rs) == IF rs = <<>> THEN Empty ELSE Merge(Head(rs), MergeAll(Tail(rs)))
 Fails(pkgs) == \E i \in DOMAIN pkgs : pkgs[i].fail # "none"
-Ideal(pkgs) == IF Fails(pkgs) THEN [err |-> TRUE, res |-> Empty]
-               ELSE [err |-> FALSE, res |-> MergeAll([i \in DOMAIN pkgs |-> Translate(Split(pkgs[i].cf), Split(pkgs[i].lb))])]
+IdealT(tp) == IF Fails(tp) THEN [err |-> TRUE, res |-> Empty]
+              ELSE [err |-> FALSE, res |-> MergeAll([i \in DOMAIN tp |-> Translate(tp[i].cf, tp[i].lb)])]
+Ideal(pkgs) == IdealT(Tok(pkgs))
 
 \* conservation: every token appears exactly once, in a keyword allowed for it
 Conv(k, tok) == CASE k \in {"include_dirs", "library_dirs", "libraries"} -> Drop2(tok)
@@ -79,8 +84,8 @@ Allowed(stream, tok) ==
                  [] p = "D" -> "define_macros" [] OTHER -> other
     IN IF Cross(stream, tok) THEN {own, other} ELSE {own}
 InSeq(x, s) == \E i \in DOMAIN s : s[i] = x
-Conserved(pkgs, res) ==
-    LET toks == [i \in DOMAIN pkgs |-> [cf |-> Split(pkgs[i].cf), lb |-> Split(pkgs[i].lb)]]
+Conserved(toks, res) ==
+    LET pkgs == toks
         RECURSIVE Sum(_)
         Sum(i) == IF i = 0 THEN 0 ELSE Sum(i - 1) + Len(toks[i].cf) + Len(toks[i].lb)
         RECURSIVE SumK(_)
@@ -91,14 +96,15 @@ Conserved(pkgs, res) ==
             /\ \A j \in DOMAIN toks[i].lb : \E k \in Allowed("libs", toks[i].lb[j]) : InSeq(Conv(k, toks[i].lb[j]), res[k])
 
 \* total verdict on an observed outcome (err: PkgConfigError raised; res: returned dict, all six keys)
-Verdict(pkgs, err, res) ==
-    LET id == Ideal(pkgs)
-        cross == \E i \in DOMAIN pkgs : HasCross(Split(pkgs[i].cf), Split(pkgs[i].lb))
+VerdictT(tp, err, res) ==
+    LET id == IdealT(tp)
+        cross == \E i \in DOMAIN tp : HasCross(tp[i].cf, tp[i].lb)
     IN IF id.err THEN (IF err THEN "ok" ELSE "error-expected")
        ELSE IF err THEN "spurious-error"
-       ELSE IF ~Conserved(pkgs, res) THEN "lost-or-duplicated"
+       ELSE IF ~Conserved(tp, res) THEN "lost-or-duplicated"
        ELSE IF ~cross /\ res # id.res THEN "wrong-keyword-or-order"
        ELSE "ok"
+Verdict(pkgs, err, res) == VerdictT(Tok(pkgs), err, res)
 
 \* ---------------------------------------------------------------- implementation model
 MacroImpl(x) == LET E == {k \in 1..Len(x) : x[k] = cEq} IN             \* :97-102  x.split("=", 1)
@@ -126,7 +132,8 @@ Loop(pkgs, ret) ==                                                      \* :124-
     IF pkgs = <<>> THEN [err |-> FALSE, res |-> ret]
     ELSE LET p == Head(pkgs) IN
          IF p.fail # "none" THEN [err |-> TRUE, res |-> Empty]          \* call() raises PkgConfigError
-         ELSE Loop(Tail(pkgs), MergeFlags(ret, Kwargs(Split(p.cf), Split(p.lb))))
-Impl(pkgs) == LET r == Loop(pkgs, << >>) IN
+         ELSE Loop(Tail(pkgs), MergeFlags(ret, Kwargs(p.cf, p.lb)))          \* pkgs already tokenised (Tok)
+ImplT(tp) == LET r == Loop(tp, << >>) IN
               IF r.err THEN r ELSE [err |-> FALSE, res |-> [k \in KeySet |-> IF k \in DOMAIN r.res THEN r.res[k] ELSE <<>>]]
+Impl(pkgs) == ImplT(Tok(pkgs))
 =============================================================================
